@@ -16,4 +16,4 @@ for P in $CHECKS; do
   (cd /verif && VERIF_REPO=$WT ./check $P --tier $TIER 2>&1 | cut -c1-420 | head -9; )
 done
 git -C $WT checkout -q -- .
-(cd /verif && git checkout -q -- evidence 2>/dev/null; rm -rf replays)
+(cd /verif && git checkout -q -- evidence 2>/dev/null)
